@@ -24,15 +24,18 @@ TERM = [{}, dict(term_select=1)]
 def configs(tier):
     full = dict(rxcmds=RXCMDS, rxbytes=BYTES, rise0=True, rise1=True)
     small = dict(full, rxcmds=RXCMDS[:3], rxbytes=BYTES[:2])
-    # no budgets anywhere: every configuration is closed under all PHY / UTMI / control-input choices (unbounded histories)
+    # no budgets unless named: every configuration is closed under all PHY / UTMI / control-input choices (unbounded histories)
     out = [
         dict(name="rx-only", checks=["rx"], phy=full),
         dict(name="rx+register-writes", checks=["rx"], phy=small, ctrl=TERM),
         dict(name="rx+transmit", checks=["rx"], phy=small, packets=[[0xC3, 0x5A]]),
-        dict(name="rx+register-writes+transmit", checks=["rx"], phy=small, ctrl=TERM, packets=[[0xC3, 0x5A]]),
     ]
-    if tier != "quick":
+    if tier == "quick":      # the only budgeted configuration (the unbudgeted one runs in the thorough tier)
+        out.append(dict(name="rx+register-writes+transmit:2-changes-1-packet", checks=["rx"], phy=small, ctrl=TERM, packets=[[0xC3, 0x5A]],
+                        budgets=dict(ctrl=2, packets=1)))
+    else:
         out += [
+            dict(name="rx+register-writes+transmit", checks=["rx"], phy=small, ctrl=TERM, packets=[[0xC3, 0x5A]]),
             dict(name="rx+register-writes:full-alphabet", checks=["rx"], phy=full, ctrl=TERM),
             dict(name="rx+register-writes+transmit:full-alphabet", checks=["rx"], phy=full, ctrl=TERM, packets=[[0xC3, 0x5A]]),
             dict(name="rx+two-registers+transmit", checks=["rx"], phy=small, ctrl=TERM + [dict(dp_pulldown=0)], packets=[[0xC3, 0x5A], [0x2D]]),
